@@ -84,3 +84,16 @@ def Run(x, m, a, b):
             and all(M(x[k], m) for k in range(a, b))
             and (a == 0 or not M(x[a - 1], m))
             and (b == len(x) or not M(x[b], m)))
+
+
+def tmod(a, b):
+    """Truncating (C-style) remainder for a positive divisor."""
+    if a >= 0:
+        return a % b
+    return -((-a) % b)
+
+
+def HASH(challenge):
+    """The game client's handshake hash: the published formula with truncating remainder."""
+    c = challenge + 1
+    return 110905 + (tmod(c, 9) + 1) * tmod(11092004 - c, (tmod(c, 11) + 1) * 119) * 119 + tmod(c, 2004)
